@@ -595,3 +595,75 @@ Proof.
   destruct (scion_reply_inv _ _ _ _ _ _ _ Hd) as [Hn _].
   rewrite (reply_not_answered _ _ _ Hb e) in Hn. discriminate.
 Qed.
+
+(* ---------- the oracle holds for the model on whole histories ---------- *)
+
+(* what an observer sees of one datagram of a history: sender, payload, the NTS
+   verdict of the payload, and the datagrams the listener wrote for it *)
+Definition observe (d : ip_datagram) (ws : list ip_write) : ip_obs :=
+  {| o_src := d_src d; o_payload := d_payload d; o_nts := e_nts_ok (d_env d);
+     o_replies := map (fun w => (w_dst w, w_payload w)) ws |}.
+
+Definition observe_run (h : list ip_datagram) (outs : list (list ip_write)) : list ip_obs :=
+  map (fun dw => observe (fst dw) (snd dw)) (combine h outs).
+
+Lemma writes_replies : forall src d,
+  map (fun w => (w_dst w, w_payload w)) (writes_of src d) = ip_replies src d.
+Proof. intros src [|out|]; reflexivity. Qed.
+
+(* every history, every buffer state: each exchange passes the property oracle,
+   whatever the listener handled before it *)
+Lemma model_meets_oracle_history : forall h buf, Forall datagram_ok h ->
+  exists outs, ip_run buf h = Some outs /\ length outs = length h /\
+    C09_hist_ok (observe_run h outs) = true.
+Proof.
+  intros h buf Hall. rewrite ip_run_stateless. eexists. split; [reflexivity|].
+  split; [apply map_length|]. clear buf.
+  induction Hall as [|d r [Hb He] Hr IH]; [reflexivity|].
+  unfold C09_hist_ok, observe_run in *. simpl. rewrite IH, andb_true_r.
+  unfold C09_obs_ok, observe. simpl. rewrite writes_replies.
+  apply model_meets_oracle_ip; assumption.
+Qed.
+
+(* a burst: datagrams of one socket handled one after the other; the replies, in
+   the order written, pass the burst oracle *)
+Lemma model_meets_oracle_burst : forall src h buf, Forall datagram_ok h ->
+  Forall (fun d => d_src d = src) h ->
+  exists outs, ip_run buf h = Some outs /\
+    C09_burst_ok src (map (fun d => (d_payload d, e_nts_ok (d_env d))) h)
+                     (map (fun w => (w_dst w, w_payload w)) (concat outs)) = true.
+Proof.
+  intros src h buf Hall Hsrc. rewrite ip_run_stateless. eexists. split; [reflexivity|]. clear buf.
+  induction Hall as [|d r [Hb He] Hr IH]; [reflexivity|].
+  inversion Hsrc as [|d' r' Hd Hsr]; subst d' r'. specialize (IH Hsr).
+  cbn [map concat C09_burst_ok]. rewrite map_app, writes_replies, Hd.
+  pose proof (model_meets_oracle_ip src (d_payload d) (d_env d) Hb He) as Ho.
+  destruct (wellformed_request (d_payload d) (e_nts_ok (d_env d))) eqn:Ew.
+  - destruct (ip_decision (d_payload d) (d_env d)) as [|out|]; cbn [ip_replies app] in *.
+    + unfold C09_ok in Ho. rewrite Ew in Ho. simpl in Ho. discriminate.
+    + rewrite Ho. exact IH.
+    + unfold C09_ok in Ho. rewrite Ew in Ho. simpl in Ho. discriminate.
+  - destruct (ip_decision (d_payload d) (d_env d)) as [|out|]; cbn [ip_replies app] in *.
+    + exact IH.
+    + unfold C09_ok in Ho. rewrite Ew in Ho. cbn [forallb] in Ho. rewrite andb_false_r in Ho. discriminate.
+    + exact IH.
+Qed.
+
+(* a plain (48-byte) well-formed request is answered exactly once, to its sender,
+   wherever it stands in a history: nothing is required of the datagrams before
+   and after it (valid NTS requests, garbage, any environment) *)
+Lemma plain_request_answered_in_any_history : forall pre d post buf,
+  datagram_ok d -> valid_client_request (d_payload d) false ->
+  exists outs_pre out outs_post,
+    ip_run buf (pre ++ d :: post) =
+      Some (outs_pre ++ [ {| w_dst := d_src d; w_payload := out |} ] :: outs_post) /\
+    length outs_pre = length pre /\ length outs_post = length post /\ is_server_reply out.
+Proof.
+  intros pre d post buf [Hb He] Hv. rewrite ip_run_stateless, map_app. cbn [map].
+  assert (valid_client_request (d_payload d) (e_nts_ok (d_env d))) as Hv'.
+  { destruct Hv as [H1 [H2 [H3 [H4|H4]]]]; [|discriminate]. repeat split; auto. }
+  apply (ip_reply_iff_valid _ _ Hb He) in Hv'. destruct Hv' as [out Hout].
+  rewrite Hout. cbn [writes_of].
+  eexists _, out, _. split; [reflexivity|]. split; [apply map_length|]. split; [apply map_length|].
+  apply reply_shape_ok_prop. apply ip_decision_reply_inv in Hout. apply (reply_shape _ _ _ Hout).
+Qed.
